@@ -37,7 +37,7 @@ def run(rep):
     # bounded stand-in for the part no contract reaches (colour refinement over HashMap + SipHash): the real
     # isomorphic_datasets on an exhaustive small domain
     native.bounded_stand_in(rep, ID, "c07", [], "c07_enumerator",
-                            "every dataset of <= 2 quads over 6 subjects x 8 objects (IRIs, 2 blank nodes, literal, 3 quoted-triple shapes incl. a blank predicate) x 3 graph names: 3 label bijections x 2 statement orders must be isomorphic in both argument orders; a changed ground IRI, a dropped quad, merged co-occurring blank nodes must not; 10 kinds of ground difference (nesting shape of two-level quoted triples, language tag, datatype, lexical form, term kind, literal inside a quoted triple, graph name) as subject / object, in ground and non-ground statements, alone and beside a blank-node statement, graphs and datasets; list-like containers holding a statement twice: all arrangements of {A, A, B} and renamed copies are isomorphic",
+                            "every dataset of <= 2 quads over 6 subjects x 8 objects (IRIs, 2 blank nodes, literal, 3 quoted-triple shapes incl. a blank predicate) x 3 graph names: 3 label bijections x 2 statement orders must be isomorphic in both argument orders; a changed ground IRI, a dropped quad, merged co-occurring blank nodes must not; 10 kinds of ground difference (nesting shape of two-level quoted triples, language tag, datatype, lexical form, term kind, literal inside a quoted triple, graph name) as subject / object, in ground and non-ground statements, alone and beside a blank-node statement, graphs and datasets; blank nodes nested two and three levels deep in quoted triples (renamed, swapped, merged); list-like containers holding a statement twice: all arrangements of {A, A, B} and renamed copies are isomorphic",
                             "<= 2 quads + 10 structural pairs x 8 placements", "isomorphic_graphs, isomorphic_datasets, IsoTerm / iso_cmp on nested terms, make_b2q_map, make_map, make_equivalence_classes, hash_quad_with (isomorphism/src/dataset.rs, hash.rs)",
                             "./check C07 --replay <this file>")
     if failed:
